@@ -284,6 +284,26 @@ neighbouring PINs' hashes, invalid PINs. distinct = distinct (pin, seed mod 10!)
                             z[a] ^= 0x10;
                             z[b] ^= 0x10;
                             judge_verify(&mut rep, pin, sd, &ss, &cs, &z, "cancelling_change");
+                            // differences that cancel under addition modulo 256 (a comparison that sums the XOR or the
+                            // arithmetic differences instead of OR-ing them): 0x80 twice, d and 256-d, +d and -d
+                            let mut z2 = h;
+                            z2[a] ^= 0x80;
+                            z2[b] ^= 0x80;
+                            judge_verify(&mut rep, pin, sd, &ss, &cs, &z2, "cancelling_change_additive");
+                            let d = 1 + (i % 255) as u8;
+                            let mut z3 = h;
+                            z3[a] ^= d;
+                            z3[b] ^= d.wrapping_neg();
+                            judge_verify(&mut rep, pin, sd, &ss, &cs, &z3, "cancelling_change_additive");
+                            let mut z4 = h;
+                            z4[a] = z4[a].wrapping_add(d);
+                            z4[b] = z4[b].wrapping_sub(d);
+                            judge_verify(&mut rep, pin, sd, &ss, &cs, &z4, "cancelling_change_additive");
+                            let mut z5 = h;
+                            for q in 0..4 {
+                                z5[(a + 5 * q) % 20] ^= 0x40;
+                            }
+                            judge_verify(&mut rep, pin, sd, &ss, &cs, &z5, "cancelling_change_additive");
                         }
                     }
                     for np in [pin.wrapping_add(1), pin.wrapping_sub(1), pin / 10, pin.wrapping_mul(10)] {
